@@ -22,19 +22,25 @@ for n, (h, msg) in enumerate(fixes, 1):
                 prop = x["property"]
     rows.append("| %d | `%s` | %s | %s |" % (n, h, prop, msg[5:].replace("|", "\\|")))
 tab = "\n".join(rows)
-s = re.sub(r"<!-- FINDINGS:BEGIN -->.*?<!-- FINDINGS:END -->", "<!-- FINDINGS:BEGIN -->\n" + tab + "\n<!-- FINDINGS:END -->", s, flags=re.S)
+s = re.sub(r"<!-- FINDINGS:BEGIN -->.*?<!-- FINDINGS:END -->", lambda m_: "<!-- FINDINGS:BEGIN -->\n" + tab + "\n<!-- FINDINGS:END -->", s, flags=re.S)
 # seeds
-rows = ["| seed | property | change (by an independent sub-agent) | needs | caught by (quick tier) | how |", "|---|---|---|---|---|---|"]
+hist = {}
+try:
+    hist = json.load(open(os.path.join(V, "seeded", "HISTORY.json")))
+except Exception:
+    pass
+rows = ["| seed | property | change (by an independent sub-agent) | needs | caught by (quick tier) | how | strengthened |", "|---|---|---|---|---|---|---|"]
 for d in sorted(glob.glob(os.path.join(V, "seeded", "*"))):
     mp = os.path.join(d, "meta.json")
     if not os.path.exists(mp):
         continue
     m = json.load(open(mp))
-    rows.append("| %s | %s | %s | %s | %s | %s |" % (os.path.basename(d), m.get("property"), str(m.get("summary", ""))[:220].replace("|", "/").replace("\n", " "),
+    rows.append("| %s | %s | %s | %s | %s | %s | %s |" % (os.path.basename(d), m.get("property"), str(m.get("summary", ""))[:220].replace("|", "/").replace("\n", " "),
                                                 str(m.get("needs", ""))[:160].replace("|", "/").replace("\n", " "),
-                                                ", ".join(m.get("caught_by", [])) or "—", str(m.get("how", ""))[:160].replace("|", "/")))
+                                                ", ".join(m.get("caught_by", [])) or ("(broken obligation only: %s)" % ", ".join(m.get("caught_only_as_broken_obligation", [])) if m.get("caught_only_as_broken_obligation") else "—"),
+                                                str(m.get("how", ""))[:160].replace("|", "/"), hist.get(os.path.basename(d), "").replace("|", "/")))
 tab = "\n".join(rows)
 if "<!-- SEEDS:BEGIN -->" in s:
-    s = re.sub(r"<!-- SEEDS:BEGIN -->.*?<!-- SEEDS:END -->", "<!-- SEEDS:BEGIN -->\n" + tab + "\n<!-- SEEDS:END -->", s, flags=re.S)
+    s = re.sub(r"<!-- SEEDS:BEGIN -->.*?<!-- SEEDS:END -->", lambda m_: "<!-- SEEDS:BEGIN -->\n" + tab + "\n<!-- SEEDS:END -->", s, flags=re.S)
 open(p, "w").write(s)
 print("DESIGN.md tables regenerated: %d fixes" % len(fixes))
